@@ -53,10 +53,23 @@ def run(tier, seed, replay=None):
         if forced:
             op, amounts = forced['op'], forced['amounts']
         else:
-            op = rng.choice(['raise', 'raise', 'raise', 'set_order', 'raise_lower', 'raise0'])
+            op = rng.choice(['raise', 'raise', 'raise', 'set_order', 'raise_lower', 'raise_lower', 'raise0'])
             amounts = [0] * pd if op == 'raise0' else [rng.choice([0, 1, 1, 2, 3]) for _ in range(pd)]
             if op != 'raise0' and not any(amounts):
                 amounts[rng.randrange(pd)] = 1
+            if op == 'raise_lower' and rng.random() < 0.6:
+                # a clean operand (open, continuous) so that the round trip is inside the range the library supports,
+                # with some directions left alone
+                while True:
+                    spec = O.gen_obj(rng, kinds=['open'], pmax={1: 5, 2: 4, 3: 3}[pd], pardim=pd)
+                    if all(max([b['knots'].count(k) for k in b['knots'][b['order']:-b['order']]] or [0]) < b['order'] for b in spec['bases']):
+                        break
+                o = O.make_impl(spec)
+                pre = O.snapshot(o)
+                if pd >= 2 and rng.random() < 0.6:
+                    amounts[rng.randrange(pd)] = 0
+                    if not any(amounts):
+                        amounts[rng.randrange(pd)] = 1
         case = dict(op=op, amounts=amounts, obj=O.spec_json(pre))
         dist['op'][op] = dist['op'].get(op, 0) + 1
         dist['pardim'][pd] = dist['pardim'].get(pd, 0) + 1
